@@ -34,11 +34,23 @@ Theorem c04_limit_ge_base : forall c s b l,
   min_point (pool s) = Some b -> b <= stop_point s -> spec_limit c s = Some l -> b <= l.
 Proof. exact spec_limit_ge_base. Qed.
 
-(* ... it is a recurrence point at or after the base (or base / the stop point) ... *)
+(* ... it is a recurrence point at or after the base (or the base itself), pushed
+   out by the largest future-trigger offset (a[+Pn] => t) among the pooled
+   tasks -- which is what keeps a tight limit from deadlocking a task that waits
+   for a future instance -- or the stop point ... *)
 Theorem c04_limit_on_sequence : forall c s b l,
   min_point (pool s) = Some b -> spec_limit c s = Some l ->
-  l = stop_point s \/ l = b \/ (In l (c_points c) /\ b <= l).
+  l = stop_point s \/ l = b + max_future c (pool s) \/
+  (exists x, In x (c_points c) /\ b <= x /\ l = x + max_future c (pool s)).
 Proof. exact spec_limit_on_sequence. Qed.
+
+(* ... where the adjustment is never negative and vanishes when no pooled task
+   has a future trigger ... *)
+Theorem c04_future_adjust_nonneg : forall c pl, 0 <= max_future c pl.
+Proof. exact max_future_nonneg. Qed.
+Theorem c04_future_adjust_none : forall c pl,
+  (forall p, In p pl -> fut_of c p = 0) -> max_future c pl = 0.
+Proof. exact max_future_none. Qed.
 
 (* ... and a task within the limit is not left unreleased: every accepted tick
    end bounds the number of consecutive iterations a task may sit in the
@@ -49,11 +61,17 @@ Theorem c04_no_starvation : forall c s snap hl hp s',
   forall p, In p (pool s') -> (p_idle p < max_idle)%nat /\ (p_lag p < max_idle)%nat.
 Proof. exact tick_end_progress. Qed.
 
-(* The limit extended by future-trigger offsets is not modelled yet: partial. *)
+(* base 2, P0, task 0 has a future trigger [+P1]: the limit is 3, so that 3/... can run for 2/0 *)
+Example c04_ex_future :
+  spec_limit {| c_insts := []; c_points := [1;2;3;4]; c_runahead := 0%nat; c_qlimits := [];
+                c_icp := 1; c_fcp := 4; c_start := 1; c_future := [1] |}
+    {| pool := [new_task (2, 0%nat) [1%nat] [] false]; limbo := []; hist := [];
+       subs := []; limit := None; relq := []; abs_done := []; stop_point := 4; done := []; to_hold := []; hold_pt := None; saved := []; stop_mode := None; stop_task := None; crash_mode := false |} = Some 3.
+Proof. vm_compute. reflexivity. Qed.
 
 Example c04_ex_spec : 
   spec_limit {| c_insts := []; c_points := [1;2;3;4;5;6]; c_runahead := 2%nat; c_qlimits := [];
-                c_icp := 1; c_fcp := 6; c_start := 1 |}
+                c_icp := 1; c_fcp := 6; c_start := 1; c_future := [] |}
     {| pool := [new_task (2, 0%nat) [1%nat] [] false; new_task (3, 0%nat) [1%nat] [] false]; limbo := []; hist := [];
        subs := []; limit := None; relq := []; abs_done := []; stop_point := 6; done := []; to_hold := []; hold_pt := None; saved := []; stop_mode := None; stop_task := None; crash_mode := false |} = Some 4.
 Proof. vm_compute. reflexivity. Qed.
@@ -70,7 +88,7 @@ Definition c04_limit_always_spec_statement : Prop :=
 Definition c04_cfg : cfg :=
   {| c_insts := [ {| i_id := (1, 0%nat); i_pre := []; i_comp := CAtom 4%nat; i_queue := 0%nat; i_tries := 1%nat |};
                   {| i_id := (3, 0%nat); i_pre := []; i_comp := CAtom 4%nat; i_queue := 0%nat; i_tries := 1%nat |} ];
-     c_points := [1; 2; 3]; c_runahead := 0%nat; c_qlimits := [0%nat]; c_icp := 1; c_fcp := 3; c_start := 1 |}.
+     c_points := [1; 2; 3]; c_runahead := 0%nat; c_qlimits := [0%nat]; c_icp := 1; c_fcp := 3; c_start := 1; c_future := [] |}.
 Definition c04_witness : list event :=
   [ ESpawn (3, 0%nat) [1%nat] [] false; EAdd (3, 0%nat); ELimit (Some 3);
     ESpawn (1, 0%nat) [1%nat] [] false; EAdd (1, 0%nat) ].
